@@ -312,6 +312,19 @@ def r03_5(ctx):
                     ok = False
                 detail = '%s in {%s}; NACK only in callback-failure handlers' % (a0.id, ', '.join(vals))
             ctx.ob('R03.5', '_ack:accepted-answers-ACK', ok, fi, c, detail)
+    # without the handshake the worker runs the job as soon as it has announced it: a cancelled
+    # job can then not be refused any more, so the parent must record the owner all the same
+    no_handshake = q.outcome_edges(fi, 'self._send_ack', True)
+    owner = [dn for (dn, t, v) in q.assigns(fi, 'self._worker_pid')]
+    r_nh = cfg.reach([cfg.entry.id], block_nodes={n.id for n in owner}, block_edges=no_handshake,
+                     include_src=True, skip_labels=('x',))
+    ok = bool(no_handshake) and bool(owner) and cfg.exit.id not in r_nh
+    ctx.ob('R03.5', '_ack:without-handshake-the-owner-is-always-recorded', ok, fi, None,
+           'with self._send_ack falsy every normal path records the owner pid (refusal needs the handshake)'
+           if ok else 'a cancelled job on a pool without handshake is "refused" by the parent although the '
+           'worker runs it: no owner, no accept callback -- a later worker death is never attributed to it',
+           path=None if ok else cfg.path([cfg.entry.id], [cfg.exit.id], block_nodes={n.id for n in owner},
+                                         block_edges=no_handshake, skip_labels=('x',)))
     cn = [n for (n, c) in sends if canc(n)]
     ctx.ob('R03.5', '_ack:cancelled-arm-exists', bool(cn), fi, None,
            'a NACK answer exists under self._cancelled and self._send_ack')
@@ -388,12 +401,18 @@ def run(ctx):
     r03_4(ctx, A)
     r03_5(ctx)
     r03_6(ctx)
+    # "returning unserialisable values": whatever the serialiser raises, the job still gets its one result
+    from .c12 import r12_3
+    r12_3(ctx)
     ctx.assume('one pipe per direction is FIFO and the parent has a single consumer thread, so '
                'ACK-before-READY in the worker implies accept-before-result in the parent')
 
 
 _P = 'billiard/pool.py'
 MUTANTS = [
+    ('cancelled-refused-without-handshake', _P, "            if self._cancelled and self._send_ack:\n", "            if self._cancelled:\n", 'R03.5'),
+    ('fallback-only-for-pickling-errors', _P, "                        put((READY, (job, i, result, inqW_fd)))\n                    except Exception as exc:\n",
+     "                        put((READY, (job, i, result, inqW_fd)))\n                    except (pickle.PicklingError, TypeError) as exc:\n", 'R12.3'),
     ('ack-after-task', _P,
      "                    put((ACK, (job, i, now(), pid, synqW_fd)))\n                    if _wait_for_syn:",
      "                    if _wait_for_syn:", 'R03.1'),
